@@ -136,10 +136,10 @@ def extended_units(tier):
         G = f"#include <math.h>\n#include <float.h>\ntypedef {T} Filtration_value;\n{T} nondet_{fl}(void);\n{T} g_up, g_down;\n" \
             "typedef struct { Filtration_value first; int second; } vp_pair_fe;\nenum { UP, DOWN, EXTRA };\n"
         f_scale = Fn(ST, r"Extended_filtration_data extend_filtration\(\)", "ef_scale", "",
-                     piece={"kind": "slice", "first": r"Filtration_value scale = maxval-minval;", "last": r"scale = 1 / scale;",
+                     piece={"kind": "slice", "first": r"Filtration_value scale =", "last": r"if \([^;]*\)\s*scale = [^;]*;",
                             "sig": "Filtration_value ef_scale(Filtration_value minval, Filtration_value maxval)", "epilogue": "return scale;"})
         f_vals = Fn(ST, r"Extended_filtration_data extend_filtration\(\)", "ef_values", "",
-                    piece={"kind": "slice", "first": r"Filtration_value scaled_v = \(v - minval\) \* scale;", "last": r"this->insert_simplex\(vr, 2 - scaled_v\);",
+                    piece={"kind": "slice", "first": r"Filtration_value scaled_v =", "last": r"this->insert_simplex\(vr, [^;]*\);",
                            "sig": "void ef_values(Filtration_value v, Filtration_value minval, Filtration_value scale)"},
                     subs=[(r"this->assign_filtration\(sh, ([^;]*)\);", r"g_up = \1;"), (r"this->insert_simplex\(vr, ([^;]*)\);", r"g_down = \1;")])
         f_dec = Fn(ST, r"std::pair<Filtration_value, Extended_simplex_type> decode_extended_filtration\(", "decode_extended_filtration", "",
